@@ -594,3 +594,15 @@ theorem c06_binrw_ShapeValue (l : Bytes) :
   BinrwTie.Mdl.parseShapeValue_eq_generated l
 
 end Physis.C06
+
+/-! ### T4 (continued): `BoneTable` -/
+namespace Physis.C06
+open Physis.Binrw Physis.Generated
+
+/-- `BoneTable`: `[u16; 64]`, u8 count, `pad_after = 3` -/
+theorem c06_binrw_BoneTable (l : Bytes) :
+    Mdl.parseBoneTable l =
+      BinrwTie.Mdl.toR (via BinrwTie.Mdl.boneTableOf (Layout.read BinrwTie.Mdl.endian BinrwMdl.boneTable l)) :=
+  BinrwTie.Mdl.parseBoneTable_eq_generated l
+
+end Physis.C06
